@@ -126,6 +126,11 @@ func (ce *CEnv) eval(e *CExpr) Val {
 			bs = append(bs, b)
 		}
 		body := c.evalBool(e.A[0])
+		if e.K == "forall" && len(bs) == 1 {
+			if t := expandBounded(bs[0], body); t != nil {
+				return SV{T: t}
+			}
+		}
 		return SV{T: Quant(e.K, bs, body)}
 	case "bin":
 		return ce.evalBin(e)
@@ -421,4 +426,55 @@ func (ex *Exec) unknownLit(v SV) *Term {
 	b := Fresh("lit", SBool)
 	ex.cur.assume(Imp(b, Eq(v.T, Zero)))
 	return b
+}
+
+// expandBounded turns  forall b. (L <= b && b < H) ==> P(b)  with literal L, H (H-L <= 64) into a conjunction.
+func expandBounded(b *Term, body *Term) *Term {
+	if body.Op != "=>" {
+		return nil
+	}
+	ant := body.Args[0]
+	var cs []*Term
+	if ant.Op == "and" {
+		cs = ant.Args
+	} else {
+		cs = []*Term{ant}
+	}
+	var lo, hi *big.Int
+	var rest []*Term
+	for _, c := range cs {
+		switch {
+		case c.Op == "<=" && c.Args[1] == b && c.Args[0].IsInt():
+			lo = c.Args[0].Int
+		case c.Op == ">=" && c.Args[0] == b && c.Args[1].IsInt():
+			lo = c.Args[1].Int
+		case c.Op == "<" && c.Args[0] == b && c.Args[1].IsInt():
+			hi = c.Args[1].Int
+		case c.Op == "<=" && c.Args[0] == b && c.Args[1].IsInt():
+			hi = new(big.Int).Add(c.Args[1].Int, big.NewInt(1))
+		default:
+			rest = append(rest, c)
+		}
+	}
+	if lo == nil || hi == nil {
+		return nil
+	}
+	n := new(big.Int).Sub(hi, lo)
+	if n.Sign() < 0 || n.Cmp(big.NewInt(64)) > 0 {
+		return nil
+	}
+	var out []*Term
+	for v := new(big.Int).Set(lo); v.Cmp(hi) < 0; v = new(big.Int).Add(v, big.NewInt(1)) {
+		m := map[*Term]*Term{b: BigLit(v)}
+		inst := Subst(body.Args[1], m)
+		if len(rest) > 0 {
+			var rs []*Term
+			for _, r := range rest {
+				rs = append(rs, Subst(r, m))
+			}
+			inst = Imp(And(rs...), inst)
+		}
+		out = append(out, inst)
+	}
+	return And(out...)
 }
